@@ -252,7 +252,7 @@ def run_case(prog, cfg=None, faults=None, cleanups=None, hooks=False, record_eve
         for kind in P.OUTCOMES:
             if kind != "undefined":
                 reg.add_step_definition("step", "step {n:d} %s" % kind, make_step(kind))
-        if cfg.get("convert"):
+        if cfg.get("convert") or "'convert'" in repr(prog):
             # typed parameter whose converter raises -> MatchWithError (C02 'convert' outcome)
             from behave import register_type
 
